@@ -13,15 +13,26 @@ Theorems (over Model/ListOffsets.lean and Model/Seek.lean):
   merge_throttle          the merged throttle is the maximum of the parts' throttles
   seek_correct            all four whence modes (+ SeekDontCheck): new offset = designated position, range-checked
                           against the partition's first/last offsets exactly when the mode demands it
+  seek_src_eq / seek_src_correct   the decision tree obtained by symbolic execution of conn.go Seek (Gen.Offsets.seekSrc) equals the
+                          model and meets the reference; the returned value is the new connection offset
   seek_no_change_on_error a failed Seek leaves the connection offset unchanged
   offset_roundtrip        Conn.Offset reports a position that Seek maps back to the same connection offset
+  mapping_sources         regenerated field-copy tables of the mapping functions agree with the models' sources
   mapping_exact_*         the field mappings as theorems over Model/Mappings.lean and Model/ListOffsets.lean:
+    mapping_exact_offsetFetch_all  nil/empty user map → NULL on the wire → every committed partition (an empty array would give none)
     mapping_exact_offsetFetch      coordinator state → OffsetFetch answer → user response = the state, per requested partition
     mapping_exact_offsetCommit_request / _response   every user commit reaches the wire unchanged; per-partition errors come back
     mapping_exact_consumerOffsets  partition → committed offset of the coordinator
     mapping_exact_metadata         leader / replicas / ISR of every partition resolve to the listed brokers; order and fields kept
     mapping_exact_readPartitions   same for Conn.ReadPartitions (placeholder brokers for unlisted ids)
+    readPartitions_error_scope / readPartitionsTopics_spec   ReadPartitions: which topics are asked for; a topic error ends the call only when it
+                          concerns the connection, otherwise every partition of every answered topic is reported
+    readOffsets_exact     ReadOffsets: both offsets iff both requests succeeded; no value leaks on error
     mapping_exact_listOffsets_step one merged entry updates its own partition's record only, in the field its timestamp selects
+    clientInit_keys / clientListOffsets_total   end to end: request → split → (any part outcomes, not all failed) → merge → fold never
+                          panics and returns a record set
+    clientStep_other / clientApply_untouched / clientApply_total   the whole fold: partitions the response does not mention keep their
+                          record, no record is lost, and no nil-map panic when every entry concerns a requested partition
 -/
 import KafkaVerif.Model.ListOffsets
 import KafkaVerif.Model.Seek
@@ -29,6 +40,8 @@ import KafkaVerif.Spec.Offsets
 import KafkaVerif.Lemmas.ListOffsets
 import KafkaVerif.Model.Mappings
 import KafkaVerif.Lemmas.Mappings
+import KafkaVerif.Spec.FieldMaps
+import KafkaVerif.Gen.Mappings
 
 namespace KV.Props.C19
 open KV.ListOffsets KV.Seek
@@ -226,19 +239,67 @@ theorem seek_correct (cur off w : Int) (dc : Bool) (offs : Offsets) :
     (seek cur off w dc offs).toSpec = KV.Spec.Offsets.seekSpec cur off w dc offs := by
   by_cases h0 : w = 0
   · subst h0; cases dc <;> rcases offs with _ | ⟨f, l⟩ <;>
-      simp [seek, seekStart, seekAbsolute, seekEnd, seekCurrent, KV.Spec.Offsets.seekSpec, KV.Spec.Offsets.unchecked, seekTarget, rangeIf]
+      simp [seek, seekStart, seekAbsolute, seekEnd, seekCurrent, KV.Gen.Offsets.seekStart, KV.Gen.Offsets.seekAbsolute, KV.Gen.Offsets.seekEnd, KV.Gen.Offsets.seekCurrent, KV.Gen.Offsets.firstOffset, KV.Gen.Offsets.lastOffset, KV.Spec.Offsets.seekSpec, KV.Spec.Offsets.unchecked, seekTarget, rangeIf]
   by_cases h1 : w = 1
   · subst h1
     by_cases hc : off = cur <;> cases dc <;> rcases offs with _ | ⟨f, l⟩ <;>
-      simp [seek, seekStart, seekAbsolute, seekEnd, seekCurrent, KV.Spec.Offsets.seekSpec, KV.Spec.Offsets.unchecked, seekTarget, rangeIf, hc]
+      simp [seek, seekStart, seekAbsolute, seekEnd, seekCurrent, KV.Gen.Offsets.seekStart, KV.Gen.Offsets.seekAbsolute, KV.Gen.Offsets.seekEnd, KV.Gen.Offsets.seekCurrent, KV.Gen.Offsets.firstOffset, KV.Gen.Offsets.lastOffset, KV.Spec.Offsets.seekSpec, KV.Spec.Offsets.unchecked, seekTarget, rangeIf, hc]
   by_cases h2 : w = 2
   · subst h2; cases dc <;> rcases offs with _ | ⟨f, l⟩ <;>
-      simp [seek, seekStart, seekAbsolute, seekEnd, seekCurrent, KV.Spec.Offsets.seekSpec, KV.Spec.Offsets.unchecked, seekTarget, rangeIf]
+      simp [seek, seekStart, seekAbsolute, seekEnd, seekCurrent, KV.Gen.Offsets.seekStart, KV.Gen.Offsets.seekAbsolute, KV.Gen.Offsets.seekEnd, KV.Gen.Offsets.seekCurrent, KV.Gen.Offsets.firstOffset, KV.Gen.Offsets.lastOffset, KV.Spec.Offsets.seekSpec, KV.Spec.Offsets.unchecked, seekTarget, rangeIf]
   by_cases h3 : w = 3
   · subst h3; cases dc <;> rcases offs with _ | ⟨f, l⟩ <;>
-      simp [seek, seekStart, seekAbsolute, seekEnd, seekCurrent, KV.Spec.Offsets.seekSpec, KV.Spec.Offsets.unchecked, seekTarget, rangeIf]
+      simp [seek, seekStart, seekAbsolute, seekEnd, seekCurrent, KV.Gen.Offsets.seekStart, KV.Gen.Offsets.seekAbsolute, KV.Gen.Offsets.seekEnd, KV.Gen.Offsets.seekCurrent, KV.Gen.Offsets.firstOffset, KV.Gen.Offsets.lastOffset, KV.Spec.Offsets.seekSpec, KV.Spec.Offsets.unchecked, seekTarget, rangeIf]
   · have hb : (w == 0 || w == 1 || w == 2 || w == 3) = false := by simp; omega
-    simp [seek, seekStart, seekAbsolute, seekEnd, seekCurrent, KV.Spec.Offsets.seekSpec, hb]
+    simp [seek, seekStart, seekAbsolute, seekEnd, seekCurrent, KV.Gen.Offsets.seekStart, KV.Gen.Offsets.seekAbsolute, KV.Gen.Offsets.seekEnd, KV.Gen.Offsets.seekCurrent, KV.Gen.Offsets.firstOffset, KV.Gen.Offsets.lastOffset, KV.Spec.Offsets.seekSpec, hb]
+
+def liftOutcome : Outcome → KV.Gen.Offsets.SeekOut
+  | .ok n => .ok n n
+  | .badWhence => .badWhence
+  | .outOfRange => .outOfRange
+  | .readError => .readError
+
+set_option maxRecDepth 4000 in
+/-- the decision tree obtained by executing conn.go (*Conn).Seek symbolically equals the hand-written model on every
+input; in particular the value returned is always the connection's new offset -/
+theorem seek_src_eq (cur off w : Int) (dc : Bool) (offs : Offsets) :
+    KV.Gen.Offsets.seekSrc cur off w dc offs = liftOutcome (seek cur off w dc offs) := by
+  by_cases h0 : w = 0
+  · subst h0; cases dc <;> rcases offs with _ | ⟨f, l⟩ <;>
+      simp [KV.Gen.Offsets.seekSrc, seek, liftOutcome, KV.Seek.seekStart, KV.Seek.seekAbsolute, KV.Seek.seekEnd, KV.Seek.seekCurrent,
+        KV.Gen.Offsets.seekStart, KV.Gen.Offsets.seekAbsolute, KV.Gen.Offsets.seekEnd, KV.Gen.Offsets.seekCurrent] <;>
+      (repeat' split) <;> simp_all <;> omega
+  by_cases h1 : w = 1
+  · subst h1; by_cases hc : off = cur <;> cases dc <;> rcases offs with _ | ⟨f, l⟩ <;>
+      simp [KV.Gen.Offsets.seekSrc, seek, liftOutcome, hc, KV.Seek.seekStart, KV.Seek.seekAbsolute, KV.Seek.seekEnd, KV.Seek.seekCurrent,
+        KV.Gen.Offsets.seekStart, KV.Gen.Offsets.seekAbsolute, KV.Gen.Offsets.seekEnd, KV.Gen.Offsets.seekCurrent] <;>
+      (repeat' split) <;> simp_all <;> omega
+  by_cases h2 : w = 2
+  · subst h2; cases dc <;> rcases offs with _ | ⟨f, l⟩ <;>
+      simp [KV.Gen.Offsets.seekSrc, seek, liftOutcome, KV.Seek.seekStart, KV.Seek.seekAbsolute, KV.Seek.seekEnd, KV.Seek.seekCurrent,
+        KV.Gen.Offsets.seekStart, KV.Gen.Offsets.seekAbsolute, KV.Gen.Offsets.seekEnd, KV.Gen.Offsets.seekCurrent] <;>
+      (repeat' split) <;> simp_all <;> omega
+  by_cases h3 : w = 3
+  · subst h3; cases dc <;> rcases offs with _ | ⟨f, l⟩ <;>
+      simp [KV.Gen.Offsets.seekSrc, seek, liftOutcome, KV.Seek.seekStart, KV.Seek.seekAbsolute, KV.Seek.seekEnd, KV.Seek.seekCurrent,
+        KV.Gen.Offsets.seekStart, KV.Gen.Offsets.seekAbsolute, KV.Gen.Offsets.seekEnd, KV.Gen.Offsets.seekCurrent] <;>
+      (repeat' split) <;> simp_all <;> omega
+  · have hb : (w == 0 || w == 1 || w == 2 || w == 3) = false := by simp; omega
+    have hb' : ¬ (w = 0 ∨ w = 1 ∨ w = 2 ∨ w = 3) := by omega
+    simp [KV.Gen.Offsets.seekSrc, seek, liftOutcome, hb, hb', KV.Seek.seekStart, KV.Seek.seekAbsolute, KV.Seek.seekEnd, KV.Seek.seekCurrent,
+      KV.Gen.Offsets.seekStart, KV.Gen.Offsets.seekAbsolute, KV.Gen.Offsets.seekEnd, KV.Gen.Offsets.seekCurrent]
+
+/-- **seek_src_correct**: the regenerated decision tree of (*Conn).Seek meets the reference on every input, and the
+value it returns is the connection's new offset -/
+theorem seek_src_correct (cur off w : Int) (dc : Bool) (offs : Offsets) :
+    match KV.Gen.Offsets.seekSrc cur off w dc offs with
+    | .ok n r => r = n ∧ KV.Spec.Offsets.seekSpec cur off w dc offs = .ok n
+    | .badWhence => KV.Spec.Offsets.seekSpec cur off w dc offs = .badWhence
+    | .outOfRange => KV.Spec.Offsets.seekSpec cur off w dc offs = .outOfRange
+    | .readError => KV.Spec.Offsets.seekSpec cur off w dc offs = .readError := by
+  rw [seek_src_eq]
+  have h := seek_correct cur off w dc offs
+  cases hs : seek cur off w dc offs <;> simp_all [liftOutcome, Outcome.toSpec]
 
 example : seek 7 3 2 false (some (0, 100)) = .ok 97 := by decide
 example : seek 7 3 3 true none = .ok 10 := by decide
@@ -261,7 +322,61 @@ theorem offset_roundtrip (cur : Int) (h : cur ≠ -2 ∧ cur ≠ -1) :
     seek 0 (offsetOf cur).1 (offsetOf cur).2 true none = .ok cur := by
   have h1 : (cur == -2) = false := by simpa using h.1
   have h2 : (cur == -1) = false := by simpa using h.2
-  simp [offsetOf, h1, h2, seek, seekStart, seekAbsolute, seekEnd, seekCurrent]
+  simp [offsetOf, h1, h2, seek, seekStart, seekAbsolute, seekEnd, seekCurrent, KV.Gen.Offsets.seekStart, KV.Gen.Offsets.seekAbsolute, KV.Gen.Offsets.seekEnd, KV.Gen.Offsets.seekCurrent, KV.Gen.Offsets.firstOffset, KV.Gen.Offsets.lastOffset]
+
+
+/-! ## regenerated shapes (Gen/Offsets.lean, go/ast over conn.go, reader.go, protocol/listoffsets) -/
+
+/-- the source's Merge sorts topics by name and partitions by (Partition, Offset) — the keys `group` / `partLt`
+use — and Split copies only header fields and per-partition fields the model's `split` copies (tolerant: fewer visible
+fields never alarm, a foreign sort key or copied field does) -/
+theorem merge_split_shape :
+    (KV.Gen.Offsets.mergeSortFields.all fun f => ["Topic", "Partition", "Offset"].contains f) = true ∧
+    (KV.Gen.Offsets.splitRequestFields.all fun f => ["IsolationLevel", "ReplicaID", "Topics"].contains f) = true ∧
+    (KV.Gen.Offsets.splitInnerFields.all fun f =>
+      ["CurrentLeaderEpoch", "Partition", "Partitions", "Timestamp", "Topic"].contains f) = true := by
+  decide
+
+/-- the placeholder of a failed part is Kafka's UNKNOWN (−1) with no offset, timestamp or epoch, on the failed
+partition; the sentinel timestamps and whence values are the documented ones -/
+theorem regenerated_constants (p : ReqPart) :
+    placeholder p = ⟨p.partition, -1, -1, -1, -1⟩ ∧ firstOffset = -2 ∧ lastOffset = -1 ∧
+    seekStart = 0 ∧ seekAbsolute = 1 ∧ seekEnd = 2 ∧ seekCurrent = 3 ∧ dontCheckBit = 2 ^ 30 := by
+  refine ⟨rfl, rfl, rfl, rfl, rfl, rfl, rfl, by decide⟩
+
+/-! ## regenerated field copies of the mapping functions -/
+
+section fieldmaps
+open KV.Spec.FieldMaps KV.Gen.Mappings
+
+/-- every user-visible field of Client.Metadata / OffsetFetch / OffsetCommit / ListOffsets and Conn.ReadPartitions
+is copied from the protocol field the models in Model/Mappings.lean copy it from (tables regenerated from the
+source; tolerant to locals, see Spec/FieldMaps.lean) -/
+theorem mapping_sources :
+    allAgree clientMetadata_Broker userBroker = true ∧ allAgree clientMetadata_Partition metaPartition = true ∧
+    allAgree clientMetadata_Topic metaTopic = true ∧ allAgree clientMetadata_MetadataResponse metaResponse = true ∧
+    allAgree clientMetadata_Request metaRequest = true ∧
+    allAgree readBrokerMetadata_Broker userBroker = true ∧
+    allAgree readTopicMetadatav1_Partition connPartition = true ∧ allAgree readTopicMetadatav6_Partition connPartitionV6 = true ∧
+    allAgree offsetFetch_OffsetFetchPartition fetchPartition = true ∧ allAgree offsetFetch_OffsetFetchResponse fetchResponse = true ∧
+    allAgree offsetFetch_Request fetchRequest = true ∧
+    allAgree offsetCommit_OffsetCommitPartition commitPartition = true ∧ allAgree offsetCommit_RequestPartition commitRequestPartition = true ∧
+    allAgree offsetCommit_Request commitRequest = true ∧
+    allAgree listOffsets_RequestPartition listRequestPartition = true ∧ allAgree listOffsets_Request listRequest = true ∧
+    allAgree listOffsets_PartitionOffsets listPartitionOffsets = true := by decide
+
+
+/-- Client.ListOffsets: the request loop marks FirstOffset / LastOffset as asked (0) for the two sentinel timestamps,
+and the response loop stores an entry's offset in FirstOffset / LastOffset / Offsets[offset] ← its timestamp by the
+same case analysis — every row of the case tables regenerated from listoffset.go is one `clientInit` / `clientStep` model
+(tolerant: a rewritten switch yields fewer rows, never a wrong one) -/
+theorem listOffsets_switch_shape :
+    (KV.Gen.Mappings.listOffsetsSwitches.flatten.all fun row =>
+      ["FirstOffset|_.FirstOffset|0", "LastOffset|_.LastOffset|0",
+       "FirstOffset|_.FirstOffset|_.Offset", "LastOffset|_.LastOffset|_.Offset",
+       "default|_.Offsets[_.Offset]|makeTime(_.Timestamp)"].contains row) = true := by decide
+
+end fieldmaps
 
 /-! ## field mappings (`mapping_exact`) -/
 
@@ -310,6 +425,31 @@ theorem mapping_exact_offsetFetch (c : Coord) (g : String) (topics : List (Strin
     · simp only [List.map_map]; exact hnd
 
 example : (offsetFetchRequest "g" []).2 = none := rfl
+
+/-- Kafka's OffsetFetch: a NULL topics array asks for every partition the group has committed (`all`); an array
+— even an empty one — asks for exactly its entries -/
+def coordAnswer (c : Coord) (all : List (String × List Int)) : Option (List (String × List Int)) → OFResponse
+  | none => coordFetch c all
+  | some asked => coordFetch c asked
+
+/-- **OffsetFetch, all-topics form**: a nil or empty user map is sent as NULL (not as an empty array), so the
+user-level response lists every partition the group has committed with the coordinator's values; an empty
+array would have been answered with no topic at all. -/
+theorem mapping_exact_offsetFetch_all (c : Coord) (g : String) (all : List (String × List Int))
+    (hnd : (all.map (·.1)).Nodup) (t : String) (ps : List Int) (hmem : (t, ps) ∈ all) :
+    (offsetFetchRequest g []).2 = none ∧
+    (offsetFetchResponse (coordAnswer c all (offsetFetchRequest g []).2)).topics.lookup t
+      = some (ps.map fun p => ⟨p, (c.value t p).1, (c.value t p).2.1, (c.value t p).2.2⟩) ∧
+    (offsetFetchResponse (coordAnswer c all (some []))).topics = [] := by
+  refine ⟨rfl, ?_, rfl⟩
+  show (offsetFetchResponse (coordFetch c all)).topics.lookup t = _
+  simp only [offsetFetchResponse, coordFetch, goMap]
+  apply lookup_foldl_ainsert
+  · simp only [List.map_map, List.mem_map]
+    refine ⟨(t, ps), hmem, ?_⟩
+    simp [convOF, Coord.part, Function.comp]
+  · simp only [List.map_map]; exact hnd
+
 
 /-- **OffsetCommit, request side**: every commit the user listed reaches the protocol request with its partition,
 offset and metadata unchanged, in the user's order, under its topic; nothing else is added. -/
@@ -429,7 +569,7 @@ LastOffset / an Offsets entry as the entry's (restored) timestamp selects, and t
 carries one.  (Hence a failed part's placeholder marks its own partition only.) -/
 theorem mapping_exact_listOffsets_step (m : List ((String × Int) × PartitionOffsets)) (t : String) (p : ResPart)
     (cur : PartitionOffsets) (hcur : m.lookup (t, p.partition) = some cur) :
-    ∃ r, clientApply m ⟨0, [(t, [p])]⟩ = some (KV.ListOffsets.ainsert m (t, p.partition) r) ∧
+    ∃ r, clientStep m (t, p) = some (KV.ListOffsets.ainsert m (t, p.partition) r) ∧
       (∀ k, k ≠ (t, p.partition) → (KV.ListOffsets.ainsert m (t, p.partition) r).lookup k = m.lookup k) ∧
       (KV.ListOffsets.ainsert m (t, p.partition) r).lookup (t, p.partition) = some r ∧
       r.partition = cur.partition ∧
@@ -446,10 +586,221 @@ theorem mapping_exact_listOffsets_step (m : List ((String × Int) × PartitionOf
     exact ⟨fun k hk => lookup_ainsert_other m _ k r hk, lookup_ainsert_self m _ r⟩
   by_cases hf : p.timestamp = firstOffset <;> by_cases hl : p.timestamp = lastOffset <;>
     by_cases he : p.error = 0 <;>
-    simp only [clientApply, List.flatMap_cons, List.flatMap_nil, List.map_cons, List.map_nil, List.append_nil,
-      List.foldlM_cons, List.foldlM_nil, hcur, bind, Option.bind, pure] <;>
-    simp [hf, hl, he, firstOffset, lastOffset] at * <;>
-    exact ⟨_, rfl, (hlook _).1, (hlook _).2, by simp_all [firstOffset, lastOffset]⟩
+    simp only [clientStep, hcur] <;>
+    simp [hf, hl, he, firstOffset, lastOffset, KV.Gen.Offsets.firstOffset, KV.Gen.Offsets.lastOffset] at * <;>
+    exact ⟨_, rfl, (hlook _).1, (hlook _).2, by simp_all [firstOffset, lastOffset, KV.Gen.Offsets.firstOffset, KV.Gen.Offsets.lastOffset]⟩
+
+/-- whatever an entry does, it writes the record of its own (topic, partition) only and never removes a record -/
+theorem clientStep_other (m m' : List ((String × Int) × PartitionOffsets)) (e : String × ResPart)
+    (h : clientStep m e = some m') :
+    (∀ k, k ≠ (e.1, e.2.partition) → m'.lookup k = m.lookup k) ∧ (m'.lookup (e.1, e.2.partition)).isSome = true := by
+  have key : ∃ r, m' = KV.ListOffsets.ainsert m (e.1, e.2.partition) r := by
+    simp only [clientStep] at h
+    split at h
+    · split at h
+      · exact ⟨_, (Option.some.inj h).symm⟩
+      · cases h
+    · exact ⟨_, (Option.some.inj h).symm⟩
+  obtain ⟨r, rfl⟩ := key
+  rw [ainsert_eq]
+  exact ⟨fun k hk => lookup_ainsert_other m _ k r hk, by rw [lookup_ainsert_self]; rfl⟩
+
+/-- **Client.ListOffsets, the whole fold**: the records of partitions the merged response does not mention are
+exactly what the request loop initialised; every record that existed still exists. -/
+theorem clientApply_untouched (es : List (String × ResPart)) (m m' : List ((String × Int) × PartitionOffsets))
+    (h : es.foldlM clientStep m = some m') :
+    (∀ k, (∀ e ∈ es, (e.1, e.2.partition) ≠ k) → m'.lookup k = m.lookup k) ∧
+    (∀ k, (m.lookup k).isSome = true → (m'.lookup k).isSome = true) := by
+  induction es generalizing m with
+  | nil => simp only [List.foldlM_nil, pure] at h; cases h; exact ⟨fun _ _ => rfl, fun _ h => h⟩
+  | cons e es ih =>
+    simp only [List.foldlM_cons, bind, Option.bind] at h
+    cases hs : clientStep m e with
+    | none => simp [hs] at h
+    | some m1 =>
+      simp only [hs] at h
+      obtain ⟨h1, h2⟩ := ih m1 h
+      obtain ⟨s1, s2⟩ := clientStep_other m m1 e hs
+      refine ⟨fun k hk => ?_, fun k hk => ?_⟩
+      · rw [h1 k (fun x hx => hk x (List.mem_cons_of_mem _ hx))]
+        exact s1 k (fun heq => hk e List.mem_cons_self heq.symm)
+      · apply h2
+        by_cases hke : k = (e.1, e.2.partition)
+        · subst hke; exact s2
+        · rw [s1 k hke]; exact hk
+
+/-- when every entry of the merged response concerns a requested partition (what `entries_exact` gives for
+well-formed part answers) the fold never hits the nil-map panic -/
+theorem clientApply_total (es : List (String × ResPart)) (m : List ((String × Int) × PartitionOffsets))
+    (h : ∀ e ∈ es, (m.lookup (e.1, e.2.partition)).isSome = true) : ∃ m', es.foldlM clientStep m = some m' := by
+  induction es generalizing m with
+  | nil => exact ⟨m, rfl⟩
+  | cons e es ih =>
+    obtain ⟨cur, hcur⟩ := Option.isSome_iff_exists.mp (h e List.mem_cons_self)
+    obtain ⟨r, hr, _⟩ := mapping_exact_listOffsets_step m e.1 e.2 cur hcur
+    have hr' : clientStep m e = some (KV.ListOffsets.ainsert m (e.1, e.2.partition) r) := hr
+    obtain ⟨_, s2⟩ := clientStep_other m _ e hr'
+    have hk : ∀ x ∈ es, ((KV.ListOffsets.ainsert m (e.1, e.2.partition) r).lookup (x.1, x.2.partition)).isSome = true := by
+      intro x hx
+      by_cases hke : (x.1, x.2.partition) = (e.1, e.2.partition)
+      · rw [hke]; exact s2
+      · rw [(clientStep_other m _ e hr').1 _ hke]; exact h x (List.mem_cons_of_mem _ hx)
+    obtain ⟨m', hm'⟩ := ih _ hk
+    exact ⟨m', by simp only [List.foldlM_cons, bind, Option.bind, hr', hm']⟩
+
+open KV.Seek in
+/-- **ReadOffsets**: both offsets are reported iff both list-offset requests succeeded; otherwise the first error
+in request order is returned and no offset at all (the first value is not leaked) -/
+theorem readOffsets_exact (first last : Except Int Int) :
+    (∀ f l, readOffsets first last = .ok (f, l) ↔ first = .ok f ∧ last = .ok l) ∧
+    (∀ e, first = .error e → readOffsets first last = .error e) ∧
+    (∀ f e, first = .ok f → last = .error e → readOffsets first last = .error e) := by
+  refine ⟨?_, ?_, ?_⟩
+  · intro f l
+    cases first <;> cases last <;> simp [readOffsets]
+  · intro e h; subst h; rfl
+  · intro f e h1 h2; subst h1; subst h2; rfl
+
+theorem readPartitions_fold_ok (bm : List (Int × UBroker)) (connTopic : String) (ts : List MTopic) (acc : List UPartition)
+    (hall : ts.all (fun t => !concerns connTopic t) = true) :
+    ∃ ps, ts.foldlM (fun acc t =>
+        if concerns connTopic t then Except.error t.error
+        else Except.ok (acc ++ t.partitions.map (convPartition bm t))) acc = .ok ps ∧
+      ps.map (fun p => (p.topic, p.id)) = acc.map (fun p => (p.topic, p.id)) ++
+        ts.flatMap (fun t => t.partitions.map fun p => (t.name, p.index)) := by
+  induction ts generalizing acc with
+  | nil => exact ⟨acc, rfl, by simp⟩
+  | cons t ts ih =>
+    simp only [List.all_cons, Bool.and_eq_true, Bool.not_eq_eq_eq_not, Bool.not_true] at hall
+    obtain ⟨ps, h1, h2⟩ := ih (acc ++ t.partitions.map (convPartition bm t)) hall.2
+    refine ⟨ps, ?_, ?_⟩
+    · simp only [List.foldlM_cons, hall.1, Bool.false_eq_true, ↓reduceIte, bind, Except.bind]
+      exact h1
+    · rw [h2]
+      simp [List.map_append, List.map_map, Function.comp, List.flatMap_cons, convPartition]
+
+theorem readPartitions_fold_err (bm : List (Int × UBroker)) (connTopic : String) (pre : List MTopic) (t : MTopic)
+    (post : List MTopic) (acc : List UPartition)
+    (hpre : pre.all (fun t => !concerns connTopic t) = true) (hc : concerns connTopic t = true) :
+    (pre ++ t :: post).foldlM (fun acc t =>
+        if concerns connTopic t then Except.error t.error
+        else Except.ok (acc ++ t.partitions.map (convPartition bm t))) acc = .error t.error := by
+  induction pre generalizing acc with
+  | nil => simp [List.foldlM_cons, hc, bind, Except.bind]
+  | cons x xs ih =>
+    simp only [List.all_cons, Bool.and_eq_true, Bool.not_eq_eq_eq_not, Bool.not_true] at hpre
+    simp only [List.cons_append, List.foldlM_cons, hpre.1, Bool.false_eq_true, ↓reduceIte, bind, Except.bind]
+    exact ih _ hpre.2
+
+/-- **ReadPartitions, error scope**: when no answered topic carries an error that concerns the connection, every
+partition of every answered topic is reported, in order (errors of other topics hide nothing); otherwise the first
+such error is returned. -/
+theorem readPartitions_error_scope (connTopic : String) (res : MResponse) :
+    (res.topics.all (fun t => !concerns connTopic t) = true →
+      ∃ ps, readPartitions connTopic res = .ok ps ∧
+        ps.map (fun p => (p.topic, p.id)) = res.topics.flatMap (fun t => t.partitions.map fun p => (t.name, p.index))) ∧
+    (∀ pre t post, res.topics = pre ++ t :: post → pre.all (fun t => !concerns connTopic t) = true →
+      concerns connTopic t = true → readPartitions connTopic res = .error t.error) := by
+  constructor
+  · intro hall
+    obtain ⟨ps, h1, h2⟩ := readPartitions_fold_ok (brokerMap res.brokers) connTopic res.topics [] hall
+    exact ⟨ps, h1, by simpa using h2⟩
+  · intro pre t post hsplit hpre hc
+    simp only [readPartitions, hsplit]
+    exact readPartitions_fold_err _ connTopic pre t post [] hpre hc
+
+/-- which topics ReadPartitions asks for -/
+theorem readPartitionsTopics_spec (connTopic : String) (args : List String) :
+    (args ≠ [] → readPartitionsTopics connTopic args = some args) ∧
+    (connTopic ≠ "" → readPartitionsTopics connTopic [] = some [connTopic]) ∧
+    readPartitionsTopics "" [] = none := by
+  refine ⟨?_, ?_, rfl⟩
+  · intro h
+    cases args with
+    | nil => exact absurd rfl h
+    | cons a as => simp [readPartitionsTopics]
+  · intro h
+    have : connTopic.length ≠ 0 := by
+      intro h0; exact h (String.length_eq_zero_iff.mp h0)
+    simp [readPartitionsTopics, this]
+
+/-- the first loop of Client.ListOffsets creates a record for every requested (topic, partition) -/
+theorem clientInit_keys (topics : List (String × List (Int × Int))) (t : String) (rs : List (Int × Int)) (p ts : Int)
+    (ht : (t, rs) ∈ topics) (hp : (p, ts) ∈ rs) : ((clientInit topics).lookup (t, p)).isSome = true := by
+  have hmem : (t, (p, ts)) ∈ topics.flatMap (fun x => x.2.map fun r => (x.1, r)) := by
+    simp only [List.mem_flatMap, List.mem_map]
+    exact ⟨(t, rs), ht, (p, ts), hp, rfl⟩
+  have gen : ∀ (l : List (String × (Int × Int))) (acc : List ((String × Int) × PartitionOffsets)),
+      ((acc.lookup (t, p)).isSome = true ∨ (t, (p, ts)) ∈ l) →
+      ((l.foldl (fun m (x : String × (Int × Int)) =>
+          let cur := (m.lookup (x.1, x.2.1)).getD ⟨x.2.1, -1, -1, [], 0⟩
+          let cur := if x.2.2 == firstOffset then { cur with first := 0 } else if x.2.2 == lastOffset then { cur with last := 0 } else cur
+          KV.ListOffsets.ainsert m (x.1, x.2.1) cur) acc).lookup (t, p)).isSome = true := by
+    intro l
+    induction l with
+    | nil => intro acc h; rcases h with h | h; exact h; cases h
+    | cons x xs ih =>
+      intro acc h
+      simp only [List.foldl_cons]
+      apply ih
+      by_cases hx : (x.1, x.2.1) = (t, p)
+      · left
+        rw [ainsert_eq, ← hx, lookup_ainsert_self]; rfl
+      · rcases h with h | h
+        · left
+          rw [ainsert_eq, lookup_ainsert_other _ _ _ _ (fun h' => hx h'.symm)]; exact h
+        · rcases List.mem_cons.mp h with h | h
+          · exact absurd (by rw [← h]) hx
+          · exact Or.inr h
+  have := gen _ [] (Or.inr hmem)
+  simpa [clientInit] using this
+
+
+theorem expected_key (x : (String × ReqPart) × Sub) (h : x.2.WF x.1) :
+    ((expected x).1, (expected x).2.partition) = (x.1.1, x.1.2.partition) := by
+  obtain ⟨tp, s⟩ := x
+  cases s with
+  | failed e => rfl
+  | answered th a =>
+    have : a.partition = tp.2.partition := h
+    simp [expected, this]
+
+theorem flat_clientRequest_mem (iso : Int) (topics : List (String × List (Int × Int))) (tp : String × ReqPart)
+    (h : tp ∈ flat (clientRequest iso topics)) :
+    ∃ t rs p ts, (t, rs) ∈ topics ∧ (p, ts) ∈ rs ∧ tp = (t, ⟨p, -1, ts⟩) := by
+  simp only [flat, clientRequest] at h
+  rw [List.mem_flatMap] at h
+  obtain ⟨top, htop, hin⟩ := h
+  rw [List.mem_map] at htop
+  obtain ⟨⟨t, rs⟩, hmem, rfl⟩ := htop
+  simp only [List.mem_map] at hin
+  obtain ⟨rp, ⟨⟨p, ts⟩, hpts, rfl⟩, rfl⟩ := hin
+  exact ⟨t, rs, p, ts, hmem, hpts, rfl⟩
+
+/-- **Client.ListOffsets end to end (no panic, nothing foreign)**: for any user request and any outcomes of its
+parts that are not all failures (each answering about the partition it was asked about), the protocol request is
+split, merged, and folded into the per-partition records without hitting the nil-map case: a result is returned,
+and every record of the result belongs to a requested (topic, partition) or was there before. -/
+theorem clientListOffsets_total (iso : Int) (topics : List (String × List (Int × Int)))
+    (xs : List ((String × ReqPart) × Sub))
+    (hreq : xs.map (·.1) = flat (clientRequest iso topics)) (hwf : ∀ x ∈ xs, x.2.WF x.1)
+    (hsome : ∃ x ∈ xs, x.2.isFailed = false) :
+    ∃ resp recs, merge (split (clientRequest iso topics)) (xs.map fun x => x.2.result x.1.1) = .ok resp ∧
+      clientApply (clientInit topics) resp = some recs := by
+  obtain ⟨resp, hm, hperm⟩ := split_merge (clientRequest iso topics) xs hreq hwf hsome
+  refine ⟨resp, ?_⟩
+  have hkeys : ∀ e ∈ flatRes resp.topics, ((clientInit topics).lookup (e.1, e.2.partition)).isSome = true := by
+    intro e he
+    have he' := (hperm.mem_iff).mp he
+    obtain ⟨x, hx, rfl⟩ := List.mem_map.mp he'
+    rw [expected_key x (hwf x hx)]
+    have hx1 : x.1 ∈ flat (clientRequest iso topics) := by
+      rw [← hreq]; exact List.mem_map_of_mem hx
+    obtain ⟨t, rs, p, ts, htop, hpts, hx1⟩ := flat_clientRequest_mem iso topics x.1 hx1
+    rw [hx1]
+    exact clientInit_keys topics t rs p ts htop hpts
+  obtain ⟨recs, hrecs⟩ := clientApply_total (flatRes resp.topics) (clientInit topics) hkeys
+  exact ⟨recs, hm, hrecs⟩
 
 end mappings
 
